@@ -542,9 +542,11 @@ Proof.
   - assert (Hr' : in_range c v = true) by (destruct v; try discriminate Ev; exact Hr).
     destruct (IH v Hr') as (p & E & S & B).
     exists p. split; [destruct v; try discriminate Ev; exact E|]. split; [discriminate|].
-    intros c' H; destruct c'; try discriminate H. cbn [inverse_pair] in H.
-    apply andb_true_iff in H as [Hs Hp]. destruct (S Hs) as (l & ->).
-    cbn [eval]. rewrite (B _ Hp). destruct v; try discriminate Ev; reflexivity.
+    intros c' H; destruct c'; try discriminate H; cbn [inverse_pair] in H.
+    + apply andb_true_iff in H as [Hs Hp]. destruct (S Hs) as (l & ->).
+      cbn [eval]. rewrite (B _ Hp). destruct v; try discriminate Ev; reflexivity.
+    + (* the backward side is the plain struct conversion (nil rejected) *)
+      apply andb_true_iff in H as [Hs Hp]. rewrite (B _ Hp). destruct v; try discriminate Ev; reflexivity.
 Qed.
 
 Lemma rt_all c : rt_prop c.
@@ -678,13 +680,19 @@ Lemma reencode_stable_in_range p m :
   eval p2w_msg p = Ok m -> in_range w2p_msg m = true -> model_roundtrip m = Ok (canon w2p_msg m).
 Proof. intros _. apply model_roundtrip_canon. Qed.
 
-(* ... and not in general: a nil element in data_point_groups (JSON [null]) is accepted by the
-   decoder as an empty group without data id, which encodes and is then rejected *)
-Definition f22_proto : value :=
-  VOneof 20 (VStruct [VInt 0; VStruct [VInt 0; VList [VNil]]; VList []; VNil]).
-Lemma reencode_refuted :
-  exists m, eval p2w_msg f22_proto = Ok m /\ is_ok (eval w2p_msg m) = true /\ model_roundtrip m = Err.
-Proof. eexists. split; [vm_compute; reflexivity|]. split; vm_compute; reflexivity. Qed.
+(* F24 (repaired in the source; this is a statement about the FORMER conversion term, kept as a
+   record): toDataPointGroup used to turn a nil group (JSON [null]) into an empty group without data
+   id; the chunk then encoded and its encoding was rejected *)
+Definition p_chunk_before_f24 : conv :=
+  NilTo (VStruct [VInt 0; VNil]) (Struct 2 [(0%nat, Copy); (1%nat, MapList p_group_before_f24)]).
+Definition f24_chunk : value := VStruct [VInt 0; VList [VNil]].
+Lemma f24_former_term_refuted :
+  exists m p', eval p_chunk_before_f24 f24_chunk = Ok m /\ eval w_chunk m = Ok p' /\
+               eval p_chunk_before_f24 p' = Err /\ eval p_chunk p' = Err.
+Proof. eexists. eexists. split; [vm_compute; reflexivity|]. split; [vm_compute; reflexivity|]. split; vm_compute; reflexivity. Qed.
+(* the current term rejects the nil group *)
+Lemma f24_now_rejected : eval p_chunk f24_chunk = Panic /\ model_decode true (Some (VOneof 20 (VStruct [VInt 0; f24_chunk; VList []; VNil]))) = Err.
+Proof. split; vm_compute; reflexivity. Qed.
 
 (* ---------- finite obligations over the generated tables ---------- *)
 From Coq Require Import String.
@@ -842,4 +850,558 @@ Lemma enum_total :
 Proof.
   split; [exact (enum_total_spec _ _ _ _ enum_total_rc)|].
   split; [exact (enum_total_spec _ _ _ _ enum_total_qos)|]. exact enum_collisions.
+Qed.
+
+(* ====================================================================================== *)
+(* C12, continued: the correspondence predicate implies the safety part of the property;   *)
+(* nil at every list / map position (systematic search for structures like F24).           *)
+(* ====================================================================================== *)
+Open Scope Z_scope.
+Open Scope list_scope.
+
+Lemma outcome_eqb_class a b : outcome_eqb a b = true -> class_of a = class_of b.
+Proof. destruct a, b; cbn; intros H; try discriminate; reflexivity. Qed.
+
+Lemma model_decode_no_panic parsed : class_of (model_decode true parsed) <> 2%N.
+Proof.
+  unfold model_decode. destruct parsed as [p|]; [|cbn; discriminate].
+  destruct (eval p2w_msg p); cbn; discriminate.
+Qed.
+
+(* an observation that agrees with the model satisfies the safety part of the property: no panic
+   escaped, and the too-large error is returned exactly above a non-zero maximum *)
+Lemma fuzz_corr_safe c : fuzz_corr c = true -> fuzz_ok_safe c = true.
+Proof.
+  unfold fuzz_corr, fuzz_ok_safe. intros H.
+  apply andb_true_iff in H as [H _]. apply andb_true_iff in H as [H Hgate].
+  apply andb_true_iff in H as [Hdec _].
+  apply outcome_eqb_class in Hdec.
+  pose proof (model_decode_no_panic (fc_parsed c)) as Hnp. rewrite Hdec in Hnp.
+  assert (Hsg : size_gate (fc_max c) (fc_len c) = negb (fc_max c =? 0) && (fc_len c >? fc_max c)).
+  { unfold size_gate. destruct (fc_max c =? 0); reflexivity. }
+  rewrite Hsg in Hgate. rewrite Hgate.
+  assert (Hr : (fc_read c =? 3)%N = false).
+  { destruct (negb (fc_max c =? 0) && (fc_len c >? fc_max c)).
+    - apply N.eqb_eq in Hgate. rewrite Hgate. reflexivity.
+    - apply N.eqb_eq in Hgate. rewrite Hgate. destruct (is_ok (fc_dec c)); reflexivity. }
+  rewrite Hr. destruct (class_of (fc_dec c) =? 2)%N eqn:E; [apply N.eqb_eq in E; contradiction|].
+  reflexivity.
+Qed.
+
+(* ---------- nil at every list element / map value ---------- *)
+
+(* all structures obtained from v by replacing ONE list element or ONE map value, at any depth, by nil *)
+Fixpoint nil_variants (v : value) {struct v} : list value :=
+  match v with
+  | VList l =>
+      map VList ((fix go (l : list value) : list (list value) :=
+                    match l with
+                    | [] => []
+                    | x :: l' => (VNil :: l') :: map (fun x' => x' :: l') (nil_variants x) ++ map (cons x) (go l')
+                    end) l)
+  | VMap l =>
+      map VMap ((fix go (l : list (Z * value)) : list (list (Z * value)) :=
+                   match l with
+                   | [] => []
+                   | (k, x) :: l' => ((k, VNil) :: l') :: map (fun x' => (k, x') :: l') (nil_variants x) ++ map (cons (k, x)) (go l')
+                   end) l)
+  | VStruct l =>
+      map VStruct ((fix go (l : list value) : list (list value) :=
+                      match l with
+                      | [] => []
+                      | x :: l' => map (fun x' => x' :: l') (nil_variants x) ++ map (cons x) (go l')
+                      end) l)
+  | VOneof t x => map (VOneof t) (nil_variants x)
+  | _ => []
+  end.
+
+(* "full" proto structures accepted by a backward conversion, derived from the conversion term itself:
+   every sub-message present, two elements in every list and map, one structure per oneof alternative *)
+Definition uuid16 : list N := [1; 2; 3; 4; 5; 6; 7; 8; 9; 10; 11; 12; 13; 14; 15; 16]%N.
+Definition nth_mod (l : list value) (k : nat) : value :=
+  match l with [] => VNil | _ => nth (Nat.modulo k (List.length l)) l VNil end.
+Fixpoint witness (c : conv) {struct c} : list value :=
+  match c with
+  | BytesToUuid | MustUuid => [VBytes uuid16]
+  | ParseUuid => [VBytes (uuid_string uuid16)]
+  | EnumTbl t => match t with (k, _) :: _ => [VInt k] | [] => [] end
+  | Opt c1 | NilOk c1 | NilTo _ c1 => witness c1
+  | MapList c1 => map (fun x => VList [x; x]) (witness c1)
+  | MapVals c1 => map (fun x => VMap [(1, x); (2, x)]) (witness c1)
+  | Struct n gs =>
+      (* input field j is read by the output fields (j, c1) of gs *)
+      let per_field := map (fun j => (fix pick (gs0 : list (nat * conv)) : list value :=
+                                        match gs0 with
+                                        | [] => [VNil]
+                                        | (i, c1) :: gs' => if Nat.eqb i j then witness c1 else pick gs'
+                                        end) gs) (seq 0 n) in
+      let width := fold_right (fun l m => Nat.max (List.length l) m) 1%nat per_field in
+      map (fun k => VStruct (map (fun l => nth_mod l k) per_field)) (seq 0 width)
+  | Oneof alts =>
+      (fix go (alts : list (N * (N * conv))) : list value :=
+         match alts with
+         | [] => []
+         | (t0, (_, c1)) :: alts' => map (VOneof t0) (witness c1) ++ go alts'
+         end) alts
+  | _ => [VInt 1]
+  end.
+
+Definition full_protos : list value := witness p2w_msg.
+Definition nil_enum : list value := flat_map nil_variants full_protos.
+
+(* accepted by the decoder, but the produced message does not re-encode to itself *)
+Definition reencodes (m : value) : bool :=
+  match model_roundtrip m with Ok m' => value_eqb (nilnorm m') (nilnorm m) | _ => false end.
+Definition accepted_unstable (p : value) : bool :=
+  match eval p2w_msg p with Ok m => negb (reencodes m) | _ => false end.
+Definition is_nil (v : value) : bool := match v with VNil => true | _ => false end.
+(* a nil element in the data point groups of an upstream chunk (20) or a downstream chunk (22) *)
+Definition has_nil_group (p : value) : bool :=
+  match p with
+  | VOneof 20 (VStruct [_; VStruct [_; VList l]; _; _]) => existsb is_nil l
+  | VOneof 22 (VStruct [_; _; VStruct [_; VList l]; _]) => existsb is_nil l
+  | _ => false
+  end.
+
+(* the full structures are accepted and stable; among ALL their nil variants (every list element and
+   every map value of every message type, one at a time) none is accepted-but-unstable: the 8 nil data
+   point groups are rejected (F24 repaired), the only accepted ones are nil values in the upstream alias
+   table of a downstream chunk ack (they become all-zero upstream infos and are stable), every other
+   nil element or value is rejected *)
+Lemma nil_enumeration :
+  forallb (fun p => match eval p2w_msg p with Ok m => reencodes m | _ => false end) full_protos = true /\
+  List.length full_protos = 39%nat /\ List.length nil_enum = 62%nat /\
+  forallb (fun p => negb (accepted_unstable p)) nil_enum = true /\
+  List.length (filter has_nil_group nil_enum) = 8%nat /\
+  forallb (fun p => negb (has_nil_group p) || negb (is_ok (eval p2w_msg p))) nil_enum = true /\
+  forallb (fun p => match eval p2w_msg p with
+                    | Ok _ => match p with VOneof 23 _ => true | _ => false end
+                    | _ => true end) nil_enum = true.
+Proof. vm_compute. repeat split; reflexivity. Qed.
+
+(* ====================================================================================== *)
+(* C12: re-encode stability for ALL parsed structures.                                     *)
+(* A syntactic relation between a backward and a forward conversion term implies that     *)
+(* everything the backward conversion produces lies in the forward domain and is canonical *)
+(* (up to nil/empty collections); with the round-trip theorem this gives                   *)
+(* decode (encode m) = m for every decoded message m.                                      *)
+(* ====================================================================================== *)
+
+(* what Go's types guarantee about a parsed proto structure (the value universe is untyped):
+   uint32 seconds/milliseconds, int64 nanoseconds, and - for the uuid parsed from its textual form -
+   that a uuid.UUID is a [16]byte *)
+Fixpoint bdom (c' : conv) (p : value) {struct c'} : bool :=
+  match c' with
+  | SecToDur | MsToDur => match p with VInt z => (0 <=? z) && (z <? two32) | _ => true end
+  | NanosToUtc => match p with VInt z => int64b z | _ => true end
+  | ParseUuid => match p with
+                 | VBytes s => match parse_uuid s with Some u => Nat.eqb (List.length u) 16 && bytes_okb u | None => true end
+                 | _ => true end
+  | Opt c1 | NilOk c1 | NilTo _ c1 => match p with VNil => true | _ => bdom c1 p end
+  | MapList c1 => match p with VList l => forallb (bdom c1) l | _ => true end
+  | MapVals c1 => match p with VMap l => forallb (fun kx => bdom c1 (snd kx)) l | _ => true end
+  | Struct _ gs => match p with VStruct ws => forallb (fun g => bdom (snd g) (nth (fst g) ws VNil)) gs | _ => true end
+  | Oneof alts => match p with
+                  | VOneof t x => forallb (fun a => if (fst a =? t)%N then bdom (snd (snd a)) x else true) alts
+                  | _ => true end
+  | _ => true
+  end.
+
+Definition tbl_stable (t' t : list (Z * Z)) : bool :=
+  forallb (fun kv => match lookupZ (snd kv) t with Some _ => canon_key t (snd kv) =? snd kv | None => false end) t'.
+
+Definition strip_nilto (c : conv) : conv := match c with NilTo _ c0 => c0 | _ => c end.
+Definition strip_nilok (c : conv) : conv := match c with NilOk c0 => c0 | _ => c end.
+
+(* backward term c' against forward term c *)
+Fixpoint back_pairP (c' c : conv) {struct c'} : Prop :=
+  match c' with
+  | Copy => c = Copy
+  | U32ToU8 => c = U8ToU32
+  | U64ToI64 => c = I64ToU64
+  | SecToDur => c = DurToSec
+  | MsToDur => c = DurToMs
+  | BytesToUuid | MustUuid => c = UuidToBytes
+  | ParseUuid => c = UuidToString
+  | NanosToUtc => c = TimeToNanos \/ c = TimeToNanosOrZero
+  | EnumTbl t' => match c with EnumTbl t => tbl_stable t' t = true | _ => False end
+  | Opt c1' => match c with Opt c1 => back_pairP c1' c1 | _ => False end
+  | NilTo z' c1' =>
+      match c with
+      | NilTo z c1 => is_struct c1' = true /\ back_pairP c1' c1 /\
+                      in_range c z' = true /\ nilnorm (canon c z') = nilnorm z'
+      | _ => False
+      end
+  | MapList c1' => match c with MapList c1 => back_pairP c1' c1 | _ => False end
+  | MapVals c1' => match c with MapVals c1 => back_pairP c1' c1 | _ => False end
+  | Struct _ gs =>
+      match strip_nilto c with
+      | Struct n fs =>
+          List.length gs = n /\ forallb (fun f => Nat.ltb (fst f) n) fs = true /\
+          (fix go (i : nat) (gs0 : list (nat * conv)) {struct gs0} : Prop :=
+             match gs0 with
+             | [] => True
+             | g :: gs' =>
+                 (fix each (fs0 : list (nat * conv)) : Prop :=
+                    match fs0 with
+                    | [] => True
+                    | f :: fs' => (if Nat.eqb (fst f) i then back_pairP (snd g) (snd f) else True) /\ each fs'
+                    end) fs /\ go (S i) gs'
+             end) 0%nat gs
+      | _ => False
+      end
+  | Oneof alts' =>
+      match strip_nilok c with
+      | Oneof alts =>
+          (fix go (as0 : list (N * (N * conv))) : Prop :=
+             match as0 with
+             | [] => True
+             | a :: as' =>
+                 match lookupN (fst (snd a)) alts with
+                 | Some (_, c1) => canon_tag alts (fst (snd a)) = fst (snd a) /\ back_pairP (snd (snd a)) c1
+                 | None => False
+                 end /\ go as'
+             end) alts'
+      | _ => False
+      end
+  | _ => False
+  end.
+
+Definition st_prop (c' c : conv) : Prop :=
+  forall p m, bdom c' p = true -> eval c' p = Ok m ->
+    in_range c m = true /\ nilnorm (canon c m) = nilnorm m.
+
+(* ---- flat forms of the nested fixpoints ---- *)
+Fixpoint bp_each (P : conv -> conv -> Prop) (i : nat) (c1' : conv) (fs : list (nat * conv)) : Prop :=
+  match fs with
+  | [] => True
+  | f :: fs' => (if Nat.eqb (fst f) i then P c1' (snd f) else True) /\ bp_each P i c1' fs'
+  end.
+Fixpoint bp_go (P : conv -> conv -> Prop) (fs : list (nat * conv)) (i : nat) (gs : list (nat * conv)) : Prop :=
+  match gs with
+  | [] => True
+  | g :: gs' => bp_each P i (snd g) fs /\ bp_go P fs (S i) gs'
+  end.
+Fixpoint bp_alts (P : conv -> conv -> Prop) (alts : list (N * (N * conv))) (as0 : list (N * (N * conv))) : Prop :=
+  match as0 with
+  | [] => True
+  | a :: as' =>
+      match lookupN (fst (snd a)) alts with
+      | Some (_, c1) => canon_tag alts (fst (snd a)) = fst (snd a) /\ P (snd (snd a)) c1
+      | None => False
+      end /\ bp_alts P alts as'
+  end.
+
+Lemma back_pair_struct n' gs c :
+  back_pairP (Struct n' gs) c =
+  match strip_nilto c with
+  | Struct n fs => List.length gs = n /\ forallb (fun f => Nat.ltb (fst f) n) fs = true /\ bp_go back_pairP fs 0 gs
+  | _ => False
+  end.
+Proof.
+  cbn [back_pairP]. destruct (strip_nilto c); try reflexivity.
+  assert (E : forall i c1' fs0,
+    (fix each (fs1 : list (nat * conv)) : Prop :=
+       match fs1 with
+       | [] => True
+       | f :: fs' => (if Nat.eqb (fst f) i then back_pairP c1' (snd f) else True) /\ each fs'
+       end) fs0 = bp_each back_pairP i c1' fs0).
+  { intros i c1' fs0. induction fs0 as [|f fs0 IHf]; [reflexivity|]. cbn [bp_each]. rewrite <- IHf. reflexivity. }
+  f_equal. f_equal. generalize 0%nat as i. induction gs as [|g gs IH]; intros i; [reflexivity|].
+  cbn [bp_go]. rewrite <- IH, <- E. reflexivity.
+Qed.
+
+Lemma back_pair_oneof alts' c :
+  back_pairP (Oneof alts') c =
+  match strip_nilok c with Oneof alts => bp_alts back_pairP alts alts' | _ => False end.
+Proof.
+  cbn [back_pairP]. destruct (strip_nilok c); try reflexivity.
+  induction alts' as [|a rest IH]; [reflexivity|]. cbn [bp_alts]. rewrite <- IH. reflexivity.
+Qed.
+
+Lemma bp_each_in P i c1' fs f : bp_each P i c1' fs -> In f fs -> fst f = i -> P c1' (snd f).
+Proof.
+  induction fs as [|f0 fs IH]; cbn [bp_each]; [intros _ []|]. intros [H1 H2] Hin E.
+  destruct Hin as [->|Hin]; [|now apply IH].
+  subst i. rewrite Nat.eqb_refl in H1. exact H1.
+Qed.
+
+Lemma bp_go_nth P fs gs : forall i0 k g, bp_go P fs i0 gs -> nth_error gs k = Some g -> bp_each P (i0 + k) (snd g) fs.
+Proof.
+  induction gs as [|g0 gs IH]; intros i0 k g H E; [destruct k; discriminate|].
+  cbn [bp_go] in H. destruct H as [H1 H2]. destruct k as [|k].
+  - cbn in E. injection E as <-. rewrite Nat.add_0_r. exact H1.
+  - cbn [nth_error] in E. replace (i0 + S k)%nat with (S i0 + k)%nat by lia. now apply (IH (S i0) k g).
+Qed.
+
+Lemma bp_alts_in P alts as0 a : bp_alts P alts as0 -> In a as0 ->
+  match lookupN (fst (snd a)) alts with
+  | Some (_, c1) => canon_tag alts (fst (snd a)) = fst (snd a) /\ P (snd (snd a)) c1
+  | None => False
+  end.
+Proof.
+  induction as0 as [|a0 as0 IH]; cbn [bp_alts]; [intros _ []|]. intros [H1 H2] Hin.
+  destruct Hin as [->|Hin]; [exact H1 | now apply IH].
+Qed.
+
+(* ---- oseq ---- *)
+Lemma oseq_ok_forall2 {A} (l : list (outcome A)) ys : oseq l = Ok ys -> Forall2 (fun o y => o = Ok y) l ys.
+Proof.
+  revert ys. induction l as [|o l IH]; cbn [oseq]; intros ys H.
+  - injection H as <-. constructor.
+  - destruct o as [y| |]; cbn [obind] in H; try discriminate.
+    destruct (oseq l) as [ys'| |]; cbn [omap] in H; try discriminate.
+    injection H as <-. constructor; [reflexivity | now apply IH].
+Qed.
+
+Lemma forall2_map_nth {A B} (f : A -> outcome B) (l : list A) ys (d : B) :
+  Forall2 (fun o y => o = Ok y) (map f l) ys ->
+  List.length ys = List.length l /\ forall k a, nth_error l k = Some a -> f a = Ok (nth k ys d).
+Proof.
+  revert ys. induction l as [|a0 l IH]; cbn [map]; intros ys H; inversion H; subst.
+  - split; [reflexivity|]. intros k a E. destruct k; discriminate.
+  - destruct (IH _ H4) as [L N]. split; [cbn; now rewrite L|].
+    intros k a E. destruct k as [|k]; cbn in *.
+    + injection E as <-. assumption.
+    + now apply N.
+Qed.
+
+(* ---- leaves ---- *)
+Lemma st_leaf c' : is_leaf c' = true -> forall c, back_pairP c' c -> st_prop c' c.
+Proof.
+  intros Hl c Hb p m Hd He.
+  destruct c'; try discriminate Hl; cbn [back_pairP] in Hb; try contradiction.
+  - (* Copy *) subst c. cbn in He. injection He as <-. split; reflexivity.
+  - (* U32ToU8 *) subst c. destruct p; try discriminate He. cbn in He. injection He as <-.
+    cbn [in_range canon]. split; [|reflexivity].
+    pose proof (Z.mod_pos_bound z 256 eq_refl). lia.
+  - (* U64ToI64 *) subst c. destruct p; try discriminate He. cbn in He. injection He as <-.
+    cbn [in_range canon]. split; [|reflexivity].
+    unfold int64b, wrap64s. pose proof (Z.mod_pos_bound (z + two63) two64 eq_refl). unfold two63, two64 in *. lia.
+  - (* SecToDur *) subst c. destruct p; try discriminate He. cbn in He. injection He as <-.
+    cbn [bdom] in Hd. cbn [in_range canon nilnorm].
+    assert (E : z * e9 / e9 = z) by (apply Z.div_mul; discriminate).
+    assert (M : (z * e9) mod e9 = 0) by (apply Z.mod_mul; discriminate).
+    unfold dur_sec_okb. rewrite E, M. split; [|reflexivity]. unfold two32, e9 in *. lia.
+  - (* MsToDur *) subst c. destruct p; try discriminate He. cbn in He. injection He as <-.
+    cbn [bdom] in Hd. cbn [in_range canon nilnorm].
+    assert (E : z * e6 / e6 = z) by (apply Z.div_mul; discriminate).
+    unfold dur_ms_okb. rewrite E. split; [|reflexivity]. unfold two32, e6 in *. lia.
+  - (* BytesToUuid *) subst c. destruct p; try discriminate He. cbn in He.
+    destruct (Nat.eqb (Datatypes.length l) 16) eqn:E; [|discriminate]. injection He as <-.
+    cbn [in_range canon]. split; [exact E | reflexivity].
+  - (* MustUuid *) subst c. destruct p; try discriminate He. cbn in He.
+    destruct (Nat.eqb (Datatypes.length l) 16) eqn:E; [|discriminate]. injection He as <-.
+    cbn [in_range canon]. split; [exact E | reflexivity].
+  - (* ParseUuid *) subst c. destruct p; try discriminate He. cbn [eval] in He. cbn [bdom] in Hd.
+    destruct (parse_uuid l) as [u|]; [|discriminate]. injection He as <-.
+    cbn [in_range canon]. split; [exact Hd | reflexivity].
+  - (* NanosToUtc *) destruct p; try discriminate He. cbn in He. injection He as <-. cbn [bdom] in Hd.
+    destruct Hb as [-> | ->]; cbn [in_range canon nilnorm].
+    + split; [exact Hd | reflexivity].
+    + split; [rewrite Hd; reflexivity|].
+      assert (z =? zero_time_ns = false) as ->; [|reflexivity].
+      unfold int64b, zero_time_ns, two63 in *. lia.
+  - (* EnumTbl *) destruct c; try contradiction. destruct p; try discriminate He. cbn in He.
+    destruct (lookupZ z t) as [w|] eqn:L; [|discriminate]. injection He as <-.
+    unfold tbl_stable in Hb. rewrite forallb_forall in Hb. specialize (Hb _ (lookupZ_In _ _ _ L)). cbn [snd] in Hb.
+    cbn [in_range canon nilnorm]. destruct (lookupZ w t0); [|discriminate]. apply Z.eqb_eq in Hb. rewrite Hb.
+    split; reflexivity.
+Qed.
+
+(* ---- wrappers ---- *)
+Lemma eval_struct_shape n gs p m : eval (Struct n gs) p = Ok m -> exists ys, m = VStruct ys.
+Proof.
+  destruct p; try discriminate. rewrite eval_struct.
+  destruct (oseq _) as [ys| |]; cbn [omap]; intros H; try discriminate. injection H as <-. eauto.
+Qed.
+
+Lemma st_opt c1' : (forall c, back_pairP c1' c -> st_prop c1' c) -> forall c, back_pairP (Opt c1') c -> st_prop (Opt c1') c.
+Proof.
+  intros IH c Hb p m Hd He. destruct c; try contradiction. cbn [back_pairP] in Hb.
+  destruct p; cbn [eval bdom] in He, Hd;
+    try (destruct (IH _ Hb _ _ Hd He) as [R C]; destruct m; cbn [in_range canon]; auto).
+  injection He as <-. split; reflexivity.
+Qed.
+
+Lemma st_nilto z' c1' : (forall c, back_pairP c1' c -> st_prop c1' c) -> forall c, back_pairP (NilTo z' c1') c -> st_prop (NilTo z' c1') c.
+Proof.
+  intros IH c Hb p m Hd He. destruct c; try contradiction. cbn [back_pairP] in Hb.
+  destruct Hb as (Hs & Hb & Rz & Cz).
+  assert (G : p <> VNil -> in_range (NilTo z c) m = true /\ nilnorm (canon (NilTo z c) m) = nilnorm m).
+  { intros Hp. assert (He' : eval c1' p = Ok m) by (destruct p; try contradiction; exact He).
+    assert (Hd' : bdom c1' p = true) by (destruct p; try contradiction; exact Hd).
+    destruct (IH _ Hb _ _ Hd' He') as [R C].
+    destruct c1'; try discriminate Hs. destruct (eval_struct_shape _ _ _ _ He') as [ys ->].
+    cbn [in_range canon]. auto. }
+  destruct p; try (apply G; discriminate).
+  cbn [eval] in He. injection He as <-. auto.
+Qed.
+
+Lemma nilnorm_list_map l l' : map nilnorm l = map nilnorm l' -> nilnorm (VList l) = nilnorm (VList l').
+Proof.
+  intros H. destruct l, l'; try discriminate H; [reflexivity|]. cbn [nilnorm]. now rewrite H.
+Qed.
+
+Lemma st_maplist c1' : (forall c, back_pairP c1' c -> st_prop c1' c) -> forall c, back_pairP (MapList c1') c -> st_prop (MapList c1') c.
+Proof.
+  intros IH c Hb p m Hd He. destruct c; try contradiction. cbn [back_pairP] in Hb. specialize (IH _ Hb).
+  destruct p; try discriminate He.
+  - cbn in He. injection He as <-. split; reflexivity.
+  - rewrite eval_maplist in He. destruct (oseq _) as [ys| |] eqn:E; cbn [omap] in He; try discriminate.
+    injection He as <-. apply oseq_ok_forall2 in E. cbn [bdom] in Hd. rewrite forallb_forall in Hd.
+    assert (A : forallb (in_range c) ys = true /\ map nilnorm (map (canon c) ys) = map nilnorm ys).
+    { clear -E IH Hd. revert ys E. induction l as [|x l IHl]; cbn [map]; intros ys E; inversion E; subst.
+      - split; reflexivity.
+      - destruct (IH x y (Hd x (or_introl eq_refl)) H1) as [R C].
+        destruct (IHl (fun a Ha => Hd a (or_intror Ha)) _ H3) as [R' C'].
+        cbn [forallb map]. rewrite R, R', C, C'. split; reflexivity. }
+    destruct A as [R C]. cbn [in_range canon]. split; [exact R | now apply nilnorm_list_map].
+Qed.
+
+Lemma nilnorm_map_map (l l' : list (Z * value)) :
+  map (fun kx => (fst kx, nilnorm (snd kx))) l = map (fun kx => (fst kx, nilnorm (snd kx))) l' ->
+  nilnorm (VMap l) = nilnorm (VMap l').
+Proof.
+  intros H. destruct l, l'; try discriminate H; [reflexivity|]. cbn [nilnorm]. now rewrite H.
+Qed.
+
+Lemma st_mapvals c1' : (forall c, back_pairP c1' c -> st_prop c1' c) -> forall c, back_pairP (MapVals c1') c -> st_prop (MapVals c1') c.
+Proof.
+  intros IH c Hb p m Hd He. destruct c; try contradiction. cbn [back_pairP] in Hb. specialize (IH _ Hb).
+  destruct p; try discriminate He.
+  - cbn in He. injection He as <-. split; reflexivity.
+  - rewrite eval_mapvals in He. destruct (oseq _) as [ys| |] eqn:E; cbn [omap] in He; try discriminate.
+    injection He as <-. apply oseq_ok_forall2 in E. cbn [bdom] in Hd. rewrite forallb_forall in Hd.
+    assert (A : forallb (fun kx => in_range c (snd kx)) ys = true /\
+                map (fun kx => (fst kx, nilnorm (snd kx))) (map (fun kx => (fst kx, canon c (snd kx))) ys)
+                = map (fun kx => (fst kx, nilnorm (snd kx))) ys).
+    { clear -E IH Hd. revert ys E. induction l as [|[k x] l IHl]; cbn [map]; intros ys E; inversion E; subst.
+      - split; reflexivity.
+      - cbn [fst snd] in H1. destruct (eval c1' x) as [y0| |] eqn:Ex; cbn [omap] in H1; try discriminate.
+        injection H1 as <-.
+        destruct (IH x y0 (Hd (k, x) (or_introl eq_refl)) Ex) as [R C].
+        destruct (IHl (fun a Ha => Hd a (or_intror Ha)) _ H3) as [R' C'].
+        cbn [forallb map fst snd]. rewrite R, R', C, C'. split; reflexivity. }
+    destruct A as [R C]. cbn [in_range canon]. split; [exact R | now apply nilnorm_map_map].
+Qed.
+
+(* ---- struct ---- *)
+Lemma find_src_in i fs c1 : find_src i fs = Some c1 -> In (i, c1) fs.
+Proof.
+  induction fs as [|[j c0] fs IH]; cbn [find_src]; [discriminate|].
+  destruct (Nat.eqb j i) eqn:E; intros H.
+  - apply Nat.eqb_eq in E. injection H as <-. subst. now left.
+  - right. auto.
+Qed.
+
+Lemma canon_fields_nilnorm fs ys : forall i0,
+  (forall k y c1, nth_error ys k = Some y -> find_src (i0 + k) fs = Some c1 -> nilnorm (canon c1 y) = nilnorm y) ->
+  map nilnorm (canon_fields fs i0 ys) = map nilnorm ys.
+Proof.
+  induction ys as [|y ys IH]; intros i0 H; [reflexivity|].
+  cbn [canon_fields map]. f_equal.
+  - destruct (find_src i0 fs) as [c1|] eqn:E; [|reflexivity].
+    apply (H 0%nat y c1); [reflexivity | now rewrite Nat.add_0_r].
+  - apply IH. intros k y0 c1 E1 E2. apply (H (S k) y0 c1); [exact E1|].
+    now replace (i0 + S k)%nat with (S i0 + k)%nat by lia.
+Qed.
+
+Lemma st_struct n' gs :
+  Forall (fun g => forall c, back_pairP (snd g) c -> st_prop (snd g) c) gs ->
+  forall c, back_pairP (Struct n' gs) c -> st_prop (Struct n' gs) c.
+Proof.
+  intros IH c Hb p m Hd He. rewrite back_pair_struct in Hb.
+  destruct (strip_nilto c) as [ | | | | | | | | | | | | | | | | | | | | | | | n fs | ] eqn:Ec; try contradiction.
+  destruct Hb as (Hlen & Hlt & Hgo).
+  destruct p; try discriminate He. rename fs0 into ws.
+  rewrite eval_struct in He. destruct (oseq _) as [ys| |] eqn:E; cbn [omap] in He; try discriminate.
+  injection He as <-. apply oseq_ok_forall2 in E.
+  destruct (forall2_map_nth _ _ _ VNil E) as [Ly Ny].
+  cbn [bdom] in Hd. rewrite forallb_forall in Hd. rewrite forallb_forall in Hlt. rewrite Forall_forall in IH.
+  (* per forward field *)
+  assert (F : forall i c1, In (i, c1) fs -> in_range c1 (nth i ys VNil) = true /\ nilnorm (canon c1 (nth i ys VNil)) = nilnorm (nth i ys VNil)).
+  { intros i c1 Hin. pose proof (Hlt _ Hin) as Hi. cbn [fst] in Hi. apply Nat.ltb_lt in Hi.
+    destruct (nth_error gs i) as [g|] eqn:Eg; [|apply nth_error_None in Eg; lia].
+    pose proof (bp_go_nth _ _ _ 0%nat i g Hgo Eg) as He1. cbn [Nat.add] in He1.
+    pose proof (bp_each_in _ _ _ _ _ He1 Hin eq_refl) as Hbp. cbn [snd] in Hbp.
+    pose proof (nth_error_In _ _ Eg) as Hing.
+    apply (IH g Hing c1 Hbp (nth (fst g) ws VNil)); [exact (Hd g Hing) | exact (Ny i g Eg)]. }
+  assert (R : in_range (Struct n fs) (VStruct ys) = true).
+  { rewrite in_range_struct. apply andb_true_iff. split; [apply Nat.eqb_eq; lia|].
+    apply forallb_forall. intros [i c1] Hin. pose proof (Hlt _ Hin) as Hl. cbn [fst snd] in *. rewrite Hl. exact (proj1 (F i c1 Hin)). }
+  assert (C : nilnorm (canon (Struct n fs) (VStruct ys)) = nilnorm (VStruct ys)).
+  { rewrite canon_struct. cbn [nilnorm]. f_equal. apply canon_fields_nilnorm.
+    intros k y c1 E1 E2. cbn [Nat.add] in E2. apply find_src_in in E2.
+    destruct (F k c1 E2) as [_ Cc]. rewrite (nth_error_nth _ _ VNil E1) in Cc. exact Cc. }
+  destruct c; cbn [strip_nilto] in Ec; try discriminate Ec.
+  - subst c. cbn [in_range canon]. auto.
+  - injection Ec as -> ->. auto.
+Qed.
+
+(* ---- oneof ---- *)
+Lemma st_oneof alts' :
+  Forall (fun a => forall c, back_pairP (snd (snd a)) c -> st_prop (snd (snd a)) c) alts' ->
+  forall c, back_pairP (Oneof alts') c -> st_prop (Oneof alts') c.
+Proof.
+  intros IH c Hb p m Hd He. rewrite back_pair_oneof in Hb.
+  destruct (strip_nilok c) as [ | | | | | | | | | | | | | | | | | | | | | | | | alts ] eqn:Ec; try contradiction.
+  destruct p; try discriminate He. rewrite eval_oneof in He.
+  destruct (lookupN tag alts') as [[u1 c1']|] eqn:L; [|discriminate].
+  destruct (eval c1' p) as [y| |] eqn:Ey; cbn [omap] in He; try discriminate. injection He as <-.
+  pose proof (lookupN_In _ _ _ L) as Hin. pose proof (bp_alts_in _ _ _ _ Hb Hin) as H. cbn [fst snd] in H.
+  destruct (lookupN u1 alts) as [[t1 c1]|] eqn:L1; [|contradiction]. destruct H as [Ht Hbp].
+  rewrite Forall_forall in IH. cbn [bdom] in Hd. rewrite forallb_forall in Hd.
+  pose proof (Hd _ Hin) as Hd1. cbn [fst snd] in Hd1. rewrite N.eqb_refl in Hd1.
+  destruct (IH _ Hin c1 Hbp p y Hd1 Ey) as [R C].
+  assert (R' : in_range (Oneof alts) (VOneof u1 y) = true) by (rewrite in_range_oneof, L1; exact R).
+  assert (C' : nilnorm (canon (Oneof alts) (VOneof u1 y)) = nilnorm (VOneof u1 y)).
+  { rewrite canon_oneof, L1, Ht. cbn [nilnorm]. now rewrite C. }
+  destruct c; cbn [strip_nilok] in Ec; try discriminate Ec.
+  - subst c. cbn [in_range canon]. auto.
+  - injection Ec as ->. auto.
+Qed.
+
+Theorem back_pair_sound c' : forall c, back_pairP c' c -> st_prop c' c.
+Proof.
+  induction c' using conv_ind'.
+  - now apply st_leaf.
+  - now apply st_opt.
+  - intros c Hb. contradiction.
+  - now apply st_nilto.
+  - now apply st_maplist.
+  - now apply st_mapvals.
+  - now apply st_struct.
+  - now apply st_oneof.
+Qed.
+
+(* ---- the converters of the source ---- *)
+
+Ltac bp_solve :=
+  repeat match goal with
+         | |- _ /\ _ => split
+         | |- True => exact I
+         | |- _ = _ => reflexivity
+         | |- _ \/ _ => first [left; reflexivity | right; reflexivity]
+         end.
+
+(* the two converters of the source are in the relation *)
+Lemma back_pair_messages : back_pairP p2w_msg w2p_msg.
+Proof. vm_compute. bp_solve. Qed.
+
+(* re-encode stability, in full: every message the decoder produces from a (well-typed) parsed
+   structure encodes, and the encoding decodes back to it (nil and empty collections identified) *)
+Theorem reencode_stable p m :
+  bdom p2w_msg p = true -> eval p2w_msg p = Ok m ->
+  exists m', model_roundtrip m = Ok m' /\ nilnorm m' = nilnorm m.
+Proof.
+  intros Hd He. destruct (back_pair_sound _ _ back_pair_messages p m Hd He) as [R C].
+  exists (canon w2p_msg m). split; [now apply model_roundtrip_canon | exact C].
+Qed.
+
+(* sanity of the relation, and record of F24: the FORMER chunk conversion (nil group -> empty group) is
+   not in the relation with the forward chunk conversion - its nil default lies outside the forward domain *)
+Lemma back_pair_former_term_fails : ~ back_pairP p_chunk_before_f24 w_chunk.
+Proof.
+  intros H. vm_compute in H. decompose [and] H. discriminate.
 Qed.
